@@ -21,7 +21,7 @@ import numpy as np
 import yaml
 
 from kafe2.core.constraint import GaussianMatrixParameterConstraint, GaussianSimpleParameterConstraint
-from kafe2.core.error import MatrixGaussianError, SimpleGaussianError
+from kafe2.core.error import SimpleGaussianError
 from kafe2.fit import (
     CustomFit,
     HistContainer,
@@ -1468,12 +1468,12 @@ def _classify(h, obs, wit):
                     return "C09/relative-simple-constraint-written-with-absolute-uncertainty"
             if a != b:
                 break
-    # -- parameter values set but not yet evaluated: the parametric model still holds the previous values when it is written.
-    #    Decided by repair-and-recheck: the same case, evaluated once before it is saved, round-trips without any difference.
+    # -- fix_parameter(name, value) does not hand the value to the parametric model (set_parameter_values does): a fit saved before
+    #    it is evaluated writes the previous model_parameters / model values, and the reloaded parametric model starts from them.
+    #    Decided by repair-and-recheck: the same case, evaluated once before it is saved, round-trips without this difference.
     if kind == "fit" and case["ftype"] != "custom" and case["stage"] == "unfitted" and obs in STALE_OBSERVABLES:
-        setters = [op for op in case["ops"] if op[0] == "set_parameter_values" or (op[0] == "fix_parameter" and len(op) > 2 and op[2] is not None)]
-        if setters and evaluated_first_round_trips(h, obs, wit):
-            return "C09/fit-saved-before-evaluation-writes-stale-parametric-model"
+        if any(op[0] == "fix_parameter" and len(op) > 2 and op[2] is not None for op in case["ops"]) and evaluated_first_round_trips(h, obs, wit):
+            return "C09/fix-parameter-value-not-handed-to-parametric-model-before-save"
     # -- CustomFit: parameter values come back as the defaults of the cost function
     if kind == "fit" and case["ftype"] == "custom" and path.startswith("values") and obs in ("parameters", "results.stored"):
         eo, go = wit.get("objects", (None, None))
